@@ -1,0 +1,121 @@
+//go:build verif
+
+package tls
+
+import "errors"
+
+// VerifHooks lets an external verification harness (build tag "verif") make the
+// Server side of this package misbehave in a self-consistent way, so that client
+// side checks can be exercised. All fields are optional; nil means "no change".
+// The callbacks are global; a harness dispatches on the *Conn it is handed.
+var VerifHooks struct {
+	// OutgoingHandshake may replace the bytes of an outgoing handshake message
+	// before they enter the sender's transcript and are written.
+	OutgoingHandshake func(c *Conn, msgType uint8, data []byte) []byte
+	// ServerSuite13 may return the id of the TLS 1.3 suite the server must use
+	// (0 = keep the selection), regardless of the client's offer.
+	ServerSuite13 func(c *Conn, offered []uint16, selected uint16) uint16
+	// ServerGroups13 may replace the server's ordered candidate group list.
+	ServerGroups13 func(c *Conn, clientGroups []CurveID, preferred []CurveID) []CurveID
+	// ServerSuite12 is ServerSuite13 for TLS <= 1.2.
+	ServerSuite12 func(c *Conn, offered []uint16, selected uint16) uint16
+	// ServerRandom12 may edit the ServerHello random of a TLS <= 1.2 server in place.
+	ServerRandom12 func(c *Conn, random []byte)
+	// ClientVersions may replace the version list the server negotiates from.
+	ClientVersions func(c *Conn, legacyVersion uint16, versions []uint16) []uint16
+	// ClientEncryptedExtensions13, if it returns true for c, makes a TLS 1.3 server
+	// read one client EncryptedExtensions message (into the transcript) right after
+	// its own flight; the raw message is passed to GotClientEncryptedExtensions.
+	ClientEncryptedExtensions13    func(c *Conn) bool
+	GotClientEncryptedExtensions13 func(c *Conn, raw []byte)
+}
+
+func verifHookOutgoingHandshake(c *Conn, msg handshakeMessage, data []byte) []byte {
+	if VerifHooks.OutgoingHandshake == nil || len(data) == 0 {
+		return data
+	}
+	return VerifHooks.OutgoingHandshake(c, data[0], data)
+}
+
+func verifHookServerSuite13(c *Conn, offered []uint16, selected *cipherSuiteTLS13) *cipherSuiteTLS13 {
+	if VerifHooks.ServerSuite13 == nil {
+		return selected
+	}
+	var sel uint16
+	if selected != nil {
+		sel = selected.id
+	}
+	if id := VerifHooks.ServerSuite13(c, offered, sel); id != 0 {
+		if s := cipherSuiteTLS13ByID(id); s != nil {
+			return s
+		}
+	}
+	return selected
+}
+
+func verifHookServerGroups13(c *Conn, clientGroups []CurveID, preferred []CurveID) []CurveID {
+	if VerifHooks.ServerGroups13 == nil {
+		return preferred
+	}
+	return VerifHooks.ServerGroups13(c, clientGroups, preferred)
+}
+
+func verifHookServerSuite12(c *Conn, offered []uint16, selected *cipherSuite) *cipherSuite {
+	if VerifHooks.ServerSuite12 == nil {
+		return selected
+	}
+	var sel uint16
+	if selected != nil {
+		sel = selected.id
+	}
+	if id := VerifHooks.ServerSuite12(c, offered, sel); id != 0 {
+		if s := cipherSuiteByID(id); s != nil {
+			return s
+		}
+	}
+	return selected
+}
+
+func verifHookServerRandom12(c *Conn, random []byte) {
+	if VerifHooks.ServerRandom12 != nil {
+		VerifHooks.ServerRandom12(c, random)
+	}
+}
+
+func verifHookClientVersions(c *Conn, legacyVersion uint16, versions []uint16) []uint16 {
+	if VerifHooks.ClientVersions == nil {
+		return versions
+	}
+	return VerifHooks.ClientVersions(c, legacyVersion, versions)
+}
+
+func verifHookAfterServerFlight13(hs *serverHandshakeStateTLS13) error {
+	c := hs.c
+	if VerifHooks.ClientEncryptedExtensions13 == nil || !VerifHooks.ClientEncryptedExtensions13(c) {
+		return nil
+	}
+	msg, err := c.readHandshake(hs.transcript)
+	if err != nil {
+		return err
+	}
+	ee, ok := msg.(*utlsClientEncryptedExtensionsMsg)
+	if !ok {
+		c.sendAlert(alertUnexpectedMessage)
+		return errors.New("verif: expected client EncryptedExtensions right after the server flight, got " + typeName(msg))
+	}
+	if VerifHooks.GotClientEncryptedExtensions13 != nil {
+		raw, _ := ee.marshal()
+		VerifHooks.GotClientEncryptedExtensions13(c, raw)
+	}
+	return nil
+}
+
+func typeName(v any) string {
+	switch v.(type) {
+	case *certificateMsgTLS13:
+		return "*tls.certificateMsgTLS13"
+	case *finishedMsg:
+		return "*tls.finishedMsg"
+	}
+	return "another message"
+}
